@@ -169,6 +169,10 @@ func (g *Gen) havocLoop(l *Loop, head *State, entrySt *State) {
 						rawHeaps[g.visName(ks)] = true
 						g.rawHeap(head, "M_nvis", "(Array Int Int)")
 						rawHeaps["M_nvis"] = true
+						if g.L.CellSort(mt.Elem()) == "Slice" && !g.M.BV {
+							g.rawHeap(head, "M_vissum", "(Array Int Int)")
+							rawHeaps["M_vissum"] = true
+						}
 					}
 				}
 			case *ssa.MapUpdate:
@@ -180,6 +184,10 @@ func (g *Gen) havocLoop(l *Loop, head *State, entrySt *State) {
 				rawHeaps[g.mapDomName(ks)] = true
 				rawHeaps[g.mapValName(ks, vs)] = true
 				rawHeaps["M_card"] = true
+				if vs == "Slice" && !g.M.BV {
+					g.rawHeap(head, "M_vlen", "(Array Int Int)")
+					rawHeaps["M_vlen"] = true
+				}
 				if et, ok := deref(mt.Elem()); ok && g.isHeapType(et) {
 					allHeaps[g.heapFor("GOwn")] = true
 				}
@@ -217,6 +225,16 @@ func (g *Gen) havocLoop(l *Loop, head *State, entrySt *State) {
 		head.H[h] = g.freshConst(h, g.heaps[h])
 	}
 	for _, r := range regions {
+		if r.AllObjs {
+			for _, srt := range r.Sorts {
+				h := g.heapFor(srt)
+				if !allHeaps[h] {
+					allHeaps[h] = true
+					head.H[h] = g.freshConst(h, g.heaps[h])
+				}
+			}
+			continue
+		}
 		if r.Map {
 			g.havocRegion(head, r)
 			continue
